@@ -5,7 +5,7 @@
 (*    "txes": queue after the call, "sent"/"wl"/"rl"/"dl": what the call added to the bytes      *)
 (*    accepted by the socket / to the wire log (tx, rx) / to the bytes handed out by the socket, *)
 (*    "rxbs": receive buffer after the call, "cutoff", "connected", "accepted", "res"}           *)
-(* preceded by a header event.  All traces of a batch are of the flavour given in the cfg.      *)
+(* preceded by a header event {"ev": "Init", "flavor": transport class}.                        *)
 EXTENDS TxStream, TraceBatch
 
 VARIABLES tid, l
@@ -16,6 +16,7 @@ Ev == EvAt(tid, l)
 TraceInit == /\ tid \in 1..NTraces
              /\ l = 2
              /\ Init
+             /\ flavor = EvAt(tid, 1).flavor
 
 \* what the real object showed after the call must be exactly what the specification's action yields
 Logged == /\ txes' = Ev.txes
